@@ -17,3 +17,41 @@ package blockresults
 //@   site call xxhash.Sum64 #3:
 //@     assert [float-hashed-from-its-own-bits] len(arg0) == 8 && implies(!isNaN(cval.CVal.(float64)), le64(arg0) == f64bits(cval.CVal.(float64)))
 //@ end
+
+// C04 (merged partial results equal the single-pass aggregate): a running
+// statistic keeps its value either in rawVal or in a cached number that is
+// written back to rawVal by syncRawValue.  When two partial buckets are merged,
+// the incoming slot's rawVal may be read (ProcessReduce(.., toJoin[i].rawVal,
+// i)) only after that slot has been synced in this iteration, whatever the
+// aggregation function of the slot is (count and sum both cache).
+//@ ghostdecl mrsSynced int
+//@ func (*RunningBucketResults).mergeRunningStats
+//@   props C04
+//@   ghostinit ghost(0, "mrsSynced") == 0
+//@   site call toJoinRunningStats[i].syncRawValue #1:
+//@     ghostset ghost(0, "mrsSynced") = i + 1
+//@   site call rr.ProcessReduce #1:
+//@     assert [incoming-slot-synced-before-it-is-read] implies(arg3 == i, ghost(0, "mrsSynced") == i + 1)
+//@   site call rr.ProcessReduce #2:
+//@     assert [incoming-slot-synced-before-it-is-read] implies(arg3 == i, ghost(0, "mrsSynced") == i + 1)
+//@   site call rr.ProcessReduce #3:
+//@     assert [incoming-slot-synced-before-it-is-read] implies(arg3 == i, ghost(0, "mrsSynced") == i + 1)
+//@   site call rr.ProcessReduce #4:
+//@     assert [incoming-slot-synced-before-it-is-read] implies(arg3 == i, ghost(0, "mrsSynced") == i + 1)
+//@   site call rr.ProcessReduce #5:
+//@     assert [incoming-slot-synced-before-it-is-read] implies(arg3 == i, ghost(0, "mrsSynced") == i + 1)
+//@   site call rr.ProcessReduce #6:
+//@     assert [incoming-slot-synced-before-it-is-read] implies(arg3 == i, ghost(0, "mrsSynced") == i + 1)
+//@   site call rr.ProcessReduce #7:
+//@     assert [incoming-slot-synced-before-it-is-read] implies(arg3 == i, ghost(0, "mrsSynced") == i + 1)
+//@   site call rr.ProcessReduce #8:
+//@     assert [incoming-slot-synced-before-it-is-read] implies(arg3 == i, ghost(0, "mrsSynced") == i + 1)
+//@   site call rr.ProcessReduce #9:
+//@     assert [incoming-slot-synced-before-it-is-read] implies(arg3 == i, ghost(0, "mrsSynced") == i + 1)
+//@   site call rr.ProcessReduce #10:
+//@     assert [incoming-slot-synced-before-it-is-read] implies(arg3 == i, ghost(0, "mrsSynced") == i + 1)
+//@   site call rr.ProcessReduce #11:
+//@     assert [incoming-slot-synced-before-it-is-read] implies(arg3 == i, ghost(0, "mrsSynced") == i + 1)
+//@   site call rr.ProcessReduceForEval #1:
+//@     assert [incoming-slot-synced-before-it-is-read] implies(arg3 == i, ghost(0, "mrsSynced") == i + 1)
+//@ end
